@@ -171,6 +171,17 @@ CLAIMS = {
         note="Trusted: TLC, the run-time wrappers of ZConfig.loader.Resource and urllib.request.urlopen (harness/zcv/obs.py). "
              "Schema loading is covered at the level of the resource discipline only (no ZSchemaLang events yet).",
         technique="TLA+ loader spec with resource events + fault actions model-checked and replayed with injected faults; TLC trace validation against the resource-discipline spec"),
+    "C09": dict(
+        text="For every datatype of the stock registry with a documented contract TLC enumerates all strings up to a per-type "
+             "bound over a per-type alphabet, checks the documented contract (acceptance shapes, lower-casing, ranges, suffix "
+             "tables, default host, bracket rule, idempotent key normalisers) on the transcription of the code's case analysis "
+             "in ZDatatypes.tla, and every (string, result) is replayed on Registry().get(name); for the regular-expression "
+             "types the live pattern object is compiled to a DFA and TLC explores its product with the documented automaton "
+             "(ZRegex.tla: same language for strings of every length); random Unicode strings check totality.",
+        design="3 (C09), 2.2",
+        note="Trusted: TLC, the regex->DFA construction (self-checked against re.fullmatch on short strings), Python's int / "
+             "float / inet_pton / timedelta as environment. existing-* and locale: totality only.",
+        technique="TLA+ transcription + contract per datatype checked by TLC on exhaustive bounded enumeration, replayed on the code; TLC product exploration live-regex DFA x spec automaton"),
 }
 
 NOT_YET = "check not built yet (construction order in DESIGN.md section 8)"
